@@ -9,6 +9,7 @@ CONSTANTS
   MaxOps = 4
   Faults = {"reorg"}
   AllowGap = TRUE
+  Dups = FALSE
   AllowRestart = FALSE
   AllowReorg = TRUE
   Rollups = {}
